@@ -544,6 +544,6 @@ func gen(r *rand.Rand, tier string, n int) []any {
 }
 
 func main() {
-	common.Main(common.Prop{ID: "C40", Facts: facts, Gen: gen, Run: run, QuickN: 60, ThoroughN: 800,
+	common.Main(common.Prop{ID: "C40", Facts: facts, Gen: gen, Run: run, QuickN: 60, ThoroughN: 200,
 		Preamble: "From Verif Require Import Lib.Dedup_Iter.\nOpen Scope Z_scope.\n"})
 }
